@@ -15,7 +15,7 @@ for (p, v), res in sorted(log.items()):
     if any(open(f'{here}/seeded/{h}/patch.diff').read() == open(f'{src}/patch.diff').read() for h in have):
         continue
     letters = [x.split('-')[1] for x in have]
-    L = next(c for c in 'abcdefghijklmnop' if c not in letters)
+    L = next(c for c in 'abcdefghijklmnopqrstuvwxyz' if c not in letters)
     name = f'{p}-{L}'
     if 'confirmed=yes' not in res:
         print('NOT CONFIRMED', p, v, res); continue
